@@ -9,7 +9,8 @@ MSG), tuples/lists of those.  Fragment:
 
   expressions  any sub-expression bound in the environment by its normalised text (symbolic
                input), walrus, + and - on numbers, calls of environment-bound callables (recorders),
-               Name, Constant, Tuple/List, Compare (is, is not, ==, !=, <, <=, >, >=, in, not in),
+               Name, Constant, Tuple/List (with *spread), Dict (with **spread), Subscript (index,
+               slice, key; out-of-range / missing key -> fault routed to handlers), Compare (is, is not, ==, !=, <, <=, >, >=, in, not in),
                BoolOp, not, IfExp, f-strings (-> MSG), isinstance(x, int|str|tuple|list|bool|float)
                or a tuple of those, len(x), bool(x)
   statements   If, Return, Assign (name or tuple-unpacking targets), Expr(docstring / logging),
@@ -44,7 +45,7 @@ class _Fault(Exception):
         self.name = name
 
 
-_TYPES = {'int': int, 'str': str, 'tuple': tuple, 'list': list, 'bool': bool, 'float': float}
+_TYPES = {'int': int, 'str': str, 'tuple': tuple, 'list': list, 'bool': bool, 'float': float, 'dict': dict}
 
 
 class MiniEval:
@@ -80,8 +81,47 @@ class MiniEval:
         if isinstance(e, ast.JoinedStr):
             return MSG
         if isinstance(e, (ast.Tuple, ast.List)):
-            vals = [self.ev(x) for x in e.elts]
+            vals = []
+            for x in e.elts:
+                if isinstance(x, ast.Starred):
+                    sv = self.ev(x.value)
+                    if not isinstance(sv, (tuple, list)):
+                        raise _Fault('TypeError')
+                    vals.extend(sv)
+                else:
+                    vals.append(self.ev(x))
             return tuple(vals) if isinstance(e, ast.Tuple) else vals
+        if isinstance(e, ast.Dict):
+            out = {}
+            for k, v in zip(e.keys, e.values):
+                if k is None:
+                    sv = self.ev(v)
+                    if not isinstance(sv, dict):
+                        raise _Fault('TypeError')
+                    out.update(sv)
+                else:
+                    out[self.ev(k)] = self.ev(v)
+            return out
+        if isinstance(e, ast.Subscript):
+            base = self.ev(e.value)
+            if isinstance(e.slice, ast.Slice):
+                if not isinstance(base, (tuple, list, str)):
+                    raise _Fault('TypeError')
+                lo = self.ev(e.slice.lower) if e.slice.lower is not None else None
+                hi = self.ev(e.slice.upper) if e.slice.upper is not None else None
+                if e.slice.step is not None:
+                    self.fail(e)
+                return base[lo:hi]
+            key = self.ev(e.slice)
+            if isinstance(base, dict):
+                if key not in base:
+                    raise _Fault('KeyError')
+                return base[key]
+            if isinstance(base, (tuple, list, str)) and isinstance(key, int) and not isinstance(key, bool):
+                if not -len(base) <= key < len(base):
+                    raise _Fault('IndexError')
+                return base[key]
+            raise _Fault('TypeError')
         if isinstance(e, ast.BoolOp):
             v = None
             for x in e.values:
@@ -187,7 +227,8 @@ class MiniEval:
                 except _Fault as flt:
                     for h in st.handlers:
                         ht = norm(h.type) if h.type is not None else 'Exception'
-                        if any(t in ht for t in ('Exception', flt.name)):
+                        if any(t in ht for t in ('Exception', flt.name)) or \
+                                (flt.name in ('KeyError', 'IndexError') and 'LookupError' in ht):
                             self.block(h.body)
                             break
                     else:
